@@ -1,10 +1,26 @@
 package main
 
-const ruleA = "Each evaluation is one seeded simulated execution: 1-3 generated changes (2-10 tasks each, random dependency DAG, 0-3 lanes, scripted handler results) run by the real TaskRunner under a seeded scheduler (order of ensure passes, handler completions, clock steps, aborts, crashes). A run is non-trivial if a fault fired (handler error, undo error, user abort, crash/restart, checkpoint failure) or at least two handlers were in flight at once."
+const ruleA = "Each evaluation is one seeded simulated execution: 1-3 generated changes (2-10 tasks each, random dependency DAG, 0-3 lanes, tasks in 0-2 lanes, scripted handler results ok/fail/retry/wait/fail-undo/ignore-kill, scheduled tasks) run by the real TaskRunner under a seeded scheduler (order of ensure passes, handler completions, clock steps, aborts, crashes). A run is non-trivial if a fault fired (handler error, undo error, user abort, crash/restart, checkpoint failure) or at least two handlers were in flight at once."
+
+const engAText = "real overlord/state (State, Change, Task, TaskRunner, checkpoint JSON) inside a testing/synctest bubble; simulated handlers, backend, ensure loop, clock; seeded scheduler and fault plan"
+
+const noteSampling = "Sampling, not proof: evidence over the seeds explored. Trusted: the simulator core (/verif/sim/core), the Go runtime's synctest fake clock, and the stubs named in the evidence file; real code is whatever /repo's working tree contains at check time."
 
 var specs = []*spec{
-	{Prop: "C01", Engine: "state", Pkg: "overlord/state", Level: "exploration", QuickS: 40, ThoroS: 600, RuleText: ruleA},
-	{Prop: "C02", Engine: "state", Pkg: "overlord/state", Level: "exploration", QuickS: 40, ThoroS: 600, RuleText: ruleA},
-	{Prop: "C03", Engine: "state", Pkg: "overlord/state", Level: "exploration", QuickS: 40, ThoroS: 600, RuleText: ruleA},
-	{Prop: "C04", Engine: "state", Pkg: "overlord/state", Level: "exploration", QuickS: 40, ThoroS: 600, RuleText: ruleA},
+	{Prop: "C01", Engine: "state", Pkg: "overlord/state", Level: "exploration", QuickS: 40, ThoroS: 600, RuleText: ruleA, EngineText: engAText,
+		Technique: "deterministic simulation: seeded schedules and handler failures over the real TaskRunner, undo-order/closure/isolation/completeness oracles on the recorded history",
+		LevelText: "Seeded exploration of change graphs x failure points x completion orders (about 5k runs/s); each run checks undo ordering at every undo start and closure, isolation and completeness of the abort at the end against an effects ledger. Right level because the property quantifies over schedules and fault sequences that only a controlled scheduler reaches; exhaustive enumeration of graphs is out of reach.",
+		LevelNote: noteSampling, DesignRef: "3 Engine A / C01"},
+	{Prop: "C02", Engine: "state", Pkg: "overlord/state", Level: "exploration", QuickS: 40, ThoroS: 600, RuleText: ruleA, EngineText: engAText,
+		Technique: "deterministic simulation: start-time monitors (prerequisites Done, dependents ready, scheduled time reached on the simulated clock, wait not resolved) at every handler start",
+		LevelText: "Seeded exploration; a monitor evaluates the ordering rules at every handler start against the state right after the ensure pass that started it, including retries with delays, scheduled tasks, early ensure passes that stop short of the deadline and tasks in Wait.",
+		LevelNote: noteSampling, DesignRef: "3 Engine A / C02"},
+	{Prop: "C03", Engine: "state", Pkg: "overlord/state", Level: "exploration", QuickS: 40, ThoroS: 600, RuleText: ruleA, EngineText: engAText,
+		Technique: "deterministic simulation: invariants after every event (ready <=> all tasks ready, aggregate status, monotone readiness, ready time, status notifications) plus stall detection after faults stop and Err() completeness",
+		LevelText: "Seeded exploration with user aborts at arbitrary instants; invariants are evaluated after every simulator event and liveness is judged as stall detection (no progress over six periodic ensure passes with nothing running, scheduled or waiting).",
+		LevelNote: noteSampling + " daemon.abortChange is represented by a replica of its guard (abort only if !IsReady).", DesignRef: "3 Engine A / C03"},
+	{Prop: "C04", Engine: "state", Pkg: "overlord/state", Level: "exploration", QuickS: 40, ThoroS: 600, RuleText: ruleA, EngineText: engAText,
+		Technique: "deterministic simulation with crash/restart injection: abandon the instance at any event, reload any durable checkpoint cut of the last action through ReadState, fresh runner; no-redo/rerun/nothing-lost/outcome oracles",
+		LevelText: "Seeded exploration with up to three crash/restarts per run at arbitrary events; the surviving checkpoint is any cut inside the last action (never below what was already durable); in-flight handlers may have applied their effect. Oracles: finished tasks never run again, running ones do, ids/changes/tasks preserved, change settles, outcome equals the crash-free outcome where that is schedule independent.",
+		LevelNote: noteSampling + " Task work is idempotent by construction of the simulated handlers (as the property assumes).", DesignRef: "3 Engine A / C04"},
 }
